@@ -49,9 +49,12 @@ DETERMINISTIC = {"eg", "ucb1", "linucb", "radius_city", "radius_cheb", "knn_city
 REPLACED = {"radius_city", "radius_cheb", "radius_ts", "knn_city", "knn_cheb", "knn_lin", "lsh", "lsh_ts"}
 CONTEXT_FREE = {"eg", "eg25", "ucb1", "ts", "softmax"}
 
-LISTS = [["knn_city_j2", "knn_cheb", "radius_city_j2"], ["lsh_j2", "knn_lin_j2", "clusters"], ["eg", "ucb1"], ["radius_city", "radius_cheb"], ["knn_city", "knn_cheb", "radius_city"], ["linucb", "lints"],
+LISTS = [["knn_city_j2", "knn_cheb", "radius_city_j2"], ["lsh_j2", "knn_lin_j2", "clusters"], ["eg", "ucb1"], ["radius_city_j2", "radius_cheb_j2"], ["knn_city", "knn_cheb", "radius_city"], ["linucb", "lints"],
          ["lsh", "clusters"], ["ts", "radius_ts", "lsh_ts"], ["tree", "eg25", "lingreedy"], ["knn_lin", "radius_cheb", "softmax"],
          ["clusters_ts", "knn_cheb", "radius_city"], ["radius_cheb", "radius_city", "knn_city", "knn_cheb"]]
+
+
+NB_CHECKED = {}     # bandit name -> runs whose neighbourhood statistics are recomputed by TraceSim (integer contexts, not quick)
 
 
 def base_name(name):
@@ -91,7 +94,7 @@ def run_config(conf, names, seed, is_quick, findings, counters, records):
     warnings.filterwarnings("ignore")
     rnd = random.Random(seed * 7919 + conf["n"] * 31 + conf["batch"])
     binary = any(base_name(n) in ("ts", "radius_ts", "lsh_ts", "clusters_ts") for n in names)
-    labels, rewards, contexts = dataset(conf["n"], rnd, binary, decimal=bool(seed % 2))
+    labels, rewards, contexts = dataset(conf["n"], rnd, binary, decimal=bool((seed >> 1) % 2))
     d = np.asarray([LM[a] for a in labels])
     r = np.asarray([float(x) for x in rewards])
     c = np.asarray(contexts)
@@ -208,7 +211,7 @@ def run_config(conf, names, seed, is_quick, findings, counters, records):
     if conf.get("no_record"):
         return
     try:
-        records.append(record(sim, names, labels, rewards, conf, test_idx, is_quick))
+        records.append(record(sim, names, labels, rewards, conf, test_idx, is_quick, contexts))
     except ValueError as error:
         findings.append(_f("record.inexact", "a reported statistic is not an exact rational of the data: %s" % error, where))
 
@@ -242,7 +245,7 @@ def stats_rec(st):
     return {"count": int(st["count"]), "sum": rat(st["sum"]), "min": rat(st["min"]), "max": rat(st["max"]), "mean": rat(st["mean"])}
 
 
-def record(sim, names, labels, rewards, conf, test_idx, is_quick):
+def record(sim, names, labels, rewards, conf, test_idx, is_quick, contexts=None):
     def arm_stats(table):
         return {INV[a]: stats_rec(table[a]) for a in table}
     bandits = []
@@ -276,9 +279,16 @@ def record(sim, names, labels, rewards, conf, test_idx, is_quick):
                     st = row.get(LM[a]) if row else None
                     entry[a] = [1, rat(st["min"]), rat(st["mean"]), rat(st["max"])] if st else [0]
                 nb.append(entry)
-        bandits.append({"name": name, "predictions": [INV[p.item() if hasattr(p, "item") else p] for p in sim.bandit_to_predictions[name]],
+        metric, radius = "", 0
+        whole = all(float(v) == int(v) for row in contexts for v in row) if contexts is not None else False
+        if nb and whole and not conf.get("scaled") and base_name(name) in ("radius_city", "radius_cheb"):
+            metric, radius = {"radius_city": ("cityblock", 2), "radius_cheb": ("chebyshev", 1)}[base_name(name)]
+        if metric:
+            NB_CHECKED[name] = NB_CHECKED.get(name, 0) + 1
+        bandits.append({"name": name, "metric": metric, "radius": radius, "predictions": [INV[p.item() if hasattr(p, "item") else p] for p in sim.bandit_to_predictions[name]],
                         "evals": evals, "nb": nb, "batches": batches})
-    return {"arms": list(ARMS), "data": [{"a": a, "r": int(x)} for a, x in zip(labels, rewards)], "ts": list(conf["ts"]),
+    xs = [[int(v) if float(v) == int(v) else 0 for v in row] for row in contexts] if contexts is not None else [[0]] * len(labels)
+    return {"arms": list(ARMS), "data": [{"a": a, "r": int(x), "x": x_} for a, x, x_ in zip(labels, rewards, xs)], "ts": list(conf["ts"]),
             "exact": "script" in conf,
             "ordered": bool(conf["ordered"]), "batch": conf["batch"], "test_indices": test_idx,
             "stats": {"total": arm_stats(sim.arm_to_stats_total), "train": arm_stats(sim.arm_to_stats_train),
